@@ -174,6 +174,23 @@ fn gen(ctx: &GenCtx, i: u64) -> Option<Run> {
         let v = rb.verifier(spec);
         rb.push(Op::Deliver { msg: t.msg, to: v, now_ns: Ns(at), ticks: vec![], twin: n % 5 == 0 && vlayer != Layer::Core, control: None, key: None });
     }
+    // v3.public: an ECDSA signature verifies under TWO public keys; the second one can be computed from the
+    // token itself.  Only the signer's key may be accepted (the protocol binds it into the signed bytes).
+    if proto == Proto::V3P {
+        for with_pk in [true, false] {
+            for recid in 0..2u8 {
+                let slot = rb.key(KeySpec::RawPublic { hex: String::new() });
+                rb.push(Op::RecoverKey { msg: t.msg, signer: key, assertion: t.assertion.clone(), with_pk, recid, slot });
+                for vlayer in if raw { vec![Layer::Core] } else { ALL_LAYERS.to_vec() } {
+                    let mut spec = plain_spec(&t, vlayer);
+                    spec.key = slot;
+                    spec.default_validators = vlayer == Layer::Batteries;
+                    let v = rb.verifier(spec);
+                    rb.deliver(t.msg, v, at);
+                }
+            }
+        }
+    }
     // a second issuer under ANOTHER key, active after the first one: its tokens must not verify under the
     // first key and vice versa (nothing of the first signing may stick)
     {
